@@ -13,7 +13,7 @@ B(s) == CASE s = "Name" -> <<78, 97, 109, 101>> [] s = "X" -> <<88>> [] s = "x" 
           [] s = "any" -> <<97, 110, 121>> [] s = "" -> <<>> [] s = "s" -> <<115>> [] s = "name" -> <<110, 97, 109, 101>>
           [] s = "W" -> <<87>> [] s = "w" -> <<119>> [] s = "k" -> <<107>> [] s = "srv" -> <<115, 114, 118>> [] s = "Srv" -> <<83, 114, 118>>
           [] s = "f_oo_bar" -> <<102, 95, 111, 111, 95, 98, 97, 114>> [] s = "P" -> <<80>> [] s = "p" -> <<112>>
-          [] s = "T" -> <<84>> [] s = "Emb" -> <<69, 109, 98>> [] s = "_x" -> <<95, 120>> [] s = "X_" -> <<88, 95>> [] s = "_foo__bar_" -> <<95, 102, 111, 111, 95, 95, 98, 97, 114, 95>>
+          [] s = "T" -> <<84>> [] s = "Emb" -> <<69, 109, 98>> [] s = "inner.v1.2" -> <<105, 110, 110, 101, 114, 46, 118, 49, 46, 50>> [] s = "_x" -> <<95, 120>> [] s = "X_" -> <<88, 95>> [] s = "_foo__bar_" -> <<95, 102, 111, 111, 95, 95, 98, 97, 114, 95>>
           [] s = "Port" -> <<80, 111, 114, 116>> [] s = "Listen" -> <<76, 105, 115, 116, 101, 110>> [] s = "listen" -> <<108, 105, 115, 116, 101, 110>>
           [] s = "port" -> <<112, 111, 114, 116>> [] s = "conf" -> <<99, 111, 110, 102>> [] s = "Conf" -> <<67, 111, 110, 102>>
 SubA == [tname |-> <<>>, fields |-> << Field(B("X"), <<>>, "int", NoT) >>]
@@ -42,7 +42,8 @@ Keys == IF Small THEN {"x", "X", "_x", "foo_bar", "foobar", "y", "name", "p"} EL
 EntsPool == { Ent(B(k), v) : k \in Keys, v \in (IF Small THEN {IntV(1), StrV(B("s")), NilV} ELSE Vals) }
               \cup { Ent(B("x"), StrV(Esc)), Ent(B("foo_bar"), IntV(-5)), Ent(B("y"), StrV(<<>>)) }
               \cup { EntB(B("inner"), InnerBlk(<<>>)), EntB(B("inner.n"), InnerBlk(B("n"))),
-                     EntB(B("any"), [type |-> B("any"), name |-> <<>>, ents |-> << Ent(B("x"), IntV(7)) >>]) }   \* a nested block aimed at an interface field
+                     EntB(B("any"), [type |-> B("any"), name |-> <<>>, ents |-> << Ent(B("x"), IntV(7)) >>]),
+                     EntB(B("inner.v1.2"), InnerBlk(<<118, 49, 46, 50>>)) }                                     \* a nested block named v1.2: the key is cut at the first dot   \* a nested block aimed at an interface field
 DistinctKeys(es) == \A i, j \in 1..Len(es) : i # j => es[i].k # es[j].k
 
 VARIABLES d, tn, blk, phase, tk, bk, nblk
